@@ -23,6 +23,7 @@ RULE = ('random core files (all numeric dtypes + char, scalar variables, '
 RULE += (" Variables are also created with sized type strings ('f8', 'i2', ...) and through values= with a missing_value attribute; a second save generation in another flavour; files with a second unlimited dimension (NETCDF4).")
 RULE += (" Every ninth source is the object one of the library's READERS returns for a valid image written by the independent codecs (CAMx memory-mapped and record readers, bpch1, bpch2, arlpackedbit, ffi1001) - conversion to netCDF is what the readers are mostly used for; byte order and bytes-vs-str of character attributes are encodings of the container, attribute names the HDF5 layer reserves (NAME, CLASS, ...) are not representable in the netCDF-4 flavours.")
 RULE += (' Every eleventh source is a netCDF file as other tools write it, made here with netCDF4 directly: packed variables (int16 with scale_factor/add_offset, with and without _FillValue, with and without missing cells) next to a plain coordinate.')
+RULE += (' Those files also carry a variable with missing cells but no missing code of its own (netCDF default fill value), a variable with values outside its valid_range, and - for the NETCDF4 flavour - a netCDF string variable.')
 ASSUMPTIONS = [
     'classic-model flavours cannot hold int64/unsigned: such files are '
     'outside the domain there (must raise or round-trip)',
@@ -158,6 +159,17 @@ def write_nc4src(ns, path, strings=False):
                 mk.reshape(-1)[0] = True
             vals = np.ma.array(vals, mask=mk)
         nv[...] = vals
+    # missing cells without a missing code (netCDF default fill value), and
+    # cells outside the declared valid_range
+    rng = np.random.default_rng([ns['vars'][0]['seed'], 5])
+    dv = ds.createVariable('dflt', 'i4' if rng.random() < 0.5 else 'f4',
+                           ('x',))
+    mk = rng.random(ns['n']) < 0.4
+    mk[0] = True
+    dv[:] = np.ma.array(rng.integers(0, 50, ns['n']), mask=mk)
+    rv = ds.createVariable('ranged', 'f4', ('x',))
+    rv.valid_range = np.array([0., 10.], 'f4')
+    rv[:] = rng.uniform(-5, 15, ns['n']).astype('f4')
     if strings:
         # a netCDF string variable (representable in the NETCDF4 flavour)
         sv = ds.createVariable('names', str, ('x',))
